@@ -402,7 +402,12 @@ def py_str(eng, v: Val) -> Val:
         if isinstance(v.ty, TStr):
             return v
         if isinstance(v.ty, TInt):
-            return V(STR, smt.StrFromInt(v.t))
+            r = smt.StrFromInt(v.t)
+            if "q_" not in r.s:  # decimal digits and '-' only: no line breaks, never empty
+                d.ground_axiom("str_int.no_cr", Not(smt.Contains(r, StrVal("\r"))))
+                d.ground_axiom("str_int.no_lf", Not(smt.Contains(r, StrVal("\n"))))
+                d.ground_axiom("str_int.nonempty", Gt(Len(r), IntVal(0)))
+            return V(STR, r)
         if isinstance(v.ty, TBool):
             return V(STR, Ite(v.t, StrVal("True"), StrVal("False")))
         f = d.fun("py_str_" + smt.mangle(v.t.sort), [v.t.sort], smt.STR)
